@@ -2,7 +2,9 @@ package main
 
 import (
 	"fmt"
+	"runtime"
 	"sync/atomic"
+	"time"
 
 	"cvssmc/internal/dump"
 	"cvssmc/internal/ev"
@@ -276,6 +278,75 @@ func viewsAfterInstalments(r *ev.Run) {
 // report — and the views of Y must still equal independent lower-level decodes of the vector:
 // what X's owner does is no business of Y (round 4, C14-A-r4: embedded base objects interned
 // process-wide by their metric values).
+// viewsOutliveParent: X is decoded at a higher level, only its lower-level views are kept, X is
+// dropped; then the garbage collector runs (twice, finalizers get their turn), further vectors are
+// decoded through constructors and nil receivers, the collector runs again — and the kept views
+// must still equal independent lower-level decodes (round 6, C02-A-r6: whole object chains
+// recycled by a finalizer on the outer object while a caller still holds an inner one).  Garbage
+// collection is an environment event the library cannot see; the harness owns it.
+func viewsOutliveParent(r *ev.Run) {
+	var n int64
+	collect := func() {
+		for i := 0; i < 3; i++ {
+			runtime.GC()
+			runtime.Gosched()
+			time.Sleep(2 * time.Millisecond) // let the finalizer goroutine run; not an oracle
+		}
+	}
+	for _, ver := range []int{3, 2} {
+		bgs := scoreBackgrounds(ver)
+		for bi, bg := range bgs {
+			for level := 1; level < 3; level++ {
+				s := canonicalWritten(ver, level, bg.ver, lang.Project(ver, level, bg.tok))
+				type kept struct {
+					lv   int
+					view any
+					want string
+				}
+				var ks []kept
+				func() {
+					x, _, _ := lib.DecodeNew(ver, level, s)
+					if x == nil {
+						return
+					}
+					lib.Observe(x)
+					for lv := level - 1; lv >= 0; lv-- {
+						ps := canonicalWritten(ver, lv, bg.ver, lang.Project(ver, lv, bg.tok))
+						ind, _, _ := lib.DecodeNew(ver, lv, ps)
+						if ind == nil {
+							continue
+						}
+						ks = append(ks, kept{lv, lib.Sub(x, lv), lib.Observe(ind).String()})
+					}
+				}()
+				collect()
+				for k := 0; k < 40; k++ {
+					ob := bgs[(bi+1+k)%len(bgs)]
+					for l2 := 2; l2 >= 0; l2-- {
+						s2 := canonicalWritten(ver, l2, ob.ver, lang.Project(ver, l2, ob.tok))
+						lib.DecodeNew(ver, l2, s2)
+						lib.Decode(lib.Nil(ver, l2), s2)
+					}
+					if k == 20 {
+						collect()
+					}
+				}
+				collect()
+				for _, kp := range ks {
+					n++
+					if got := lib.Observe(kp.view).String(); got != kp.want {
+						r.Violate(ev.Violation{Kind: "kept-view-changes-after-its-parent-was-collected", Case: map[string]any{"cvss": ver, "decoder": spec.LevelNames[level], "vector": s, "view": spec.LevelNames[kp.lv],
+							"history": []string{"x := Decode(" + s + ")", "v := the " + spec.LevelNames[kp.lv] + " view of x; x dropped", "runtime.GC() x3", "40 other vectors decoded at every level through constructors and nil receivers, runtime.GC() in between", "queries on v"}},
+							Observed: got, Expected: kp.want + "  (an independent decode of the projected vector)"})
+					}
+				}
+			}
+		}
+	}
+	r.Add("views_kept_across_garbage_collections", n)
+	r.Add("evaluations", n)
+}
+
 func viewsOfTwin(r *ev.Run) {
 	var n int64
 	for _, ver := range []int{3, 2} {
@@ -660,6 +731,7 @@ func init() {
 		}
 		r.Phase("views after instalment decoding", func() { viewsAfterInstalments(r) })
 		r.Phase("views of a twin object", func() { viewsOfTwin(r) })
+		r.Phase("views that outlive their parent object", func() { viewsOutliveParent(r) })
 		r.Set("exhaustive", false)
 		r.Set("complete_subdomains", "v3 base x temporal (518,400) at the temporal decoder and at the environmental decoder x 20 environmental suffixes; v2 base x temporal (73,629) at both decoders x 3 suffixes; thorough adds all 2,211,840 v3 environmental combinations x 3 base+temporal vectors and a quarter of the v2 141M domain")
 		r.Set("rule", "for every vector: the object returned by BaseMetrics()/TemporalMetrics() is pointer-identical on repeated calls and to the embedded field, and its score, severity, validity, encoding, string and complete reflective state equal those of an independent lower-level decode of the projected vector; distinct by token set")
